@@ -1149,7 +1149,7 @@ def execute(case, stop_at_first=True, collect=True, known=None):
                 else:
                     violation("not_reproducible_between_runs", "structure:%s" % (b[0],), extra={"detail": [str(x) for x in b]})
     # bookkeeping
-    for k in ("abort_fired", "gc_drop", "bad_setup"):
+    for k in ("abort_fired", "gc_drop", "bad_setup", "disk_fault_fired"):
         if stats.get(k):
             res["fault_fired"][k] = stats[k]
     if case.get("share"):
@@ -1333,5 +1333,6 @@ def coverage(results, tier):
         "logical_steps": stats,
         "tolerances": {"RT_ISOLATED": RT_ISOLATED, "RT_ENV": RT_ENV},
         "real_vs_stub": {"real": "all of openaerostruct.*, OpenMDAO, numpy/scipy; fresh interpreters for environment variants",
-                         "stub": "report/recorder file output off; optimiser driver not used"},
+                         "stub": "report/recorder file output off; optimiser driver not used; the disk under the MPhys contour writer is "
+                                 "simulated in memory (sim/simdisk.py), faults armed per tenant directory"},
     }
